@@ -48,7 +48,14 @@ def multi_edge_files():
                  A.stanza(q, [A.node(A.var("n")), A.attrn(A.var("n"), A.attr("t", ml)), A.node(A.var("k")), A.edge(A.var("n"), A.var("k")),
                               A.edge(A.var("k"), A.svar(A.cap("id"), "r"))])],
                 inherit=["r"])
-    return [f1, f2, f3]
+    # two nodes linked in both directions (one statement each), and a top-level pattern that is itself quantified
+    f4 = A.file([A.stanza("(module) @_m ", [A.node(A.var("a")), A.node(A.var("b")), A.edge(A.var("a"), A.var("b")), A.edge(A.var("b"), A.var("a")),
+                                            A.node(A.var("c")), A.edge(A.var("c"), A.var("a")), A.edge(A.var("a"), A.var("c")), A.edge(A.var("c"), A.var("c"))])])
+    f5 = A.file([A.stanza(q, [A.node(A.svar(A.cap("id"), "n"))]),
+                 A.stanza(q, [A.node(A.var("k")), A.edge(A.svar(A.cap("id"), "n"), A.var("k")), A.edge(A.var("k"), A.svar(A.cap("id"), "n"))])])
+    f6 = A.file([A.stanza("(expression_statement)+ @_es ", [A.node(A.var("n")), A.attrn(A.var("n"), A.attr("k", A.integer(1)))])])
+    f7 = A.file([A.stanza("(module (expression_statement)+ @es) ", [A.node(A.var("n")), A.attrn(A.var("n"), A.attr("all", A.cap("es")))])])
+    return [f1, f2, f3, f4, f5, f6, f7]
 
 
 def make_cases(tier):
